@@ -44,6 +44,7 @@ class DCConfig:
     server_tokens: t.Sequence[bytes] = (b"SRV1", b"")
     reply_align: int = 16
     reply_pad_fill: int = 0xBB
+    reply_fragment_cuts: t.Optional[t.Sequence[int]] = None  # stub offsets at which the GetKey reply is split into individually sealed fragments
     reply_pad_exact: t.Optional[int] = None  # force an auth pad length 0..255 regardless of alignment
     l2_key_absent_at_31: bool = False
     envelope_future: bool = False  # return the key for "now" even when an older one was requested (never done: conforming DC)
@@ -372,24 +373,41 @@ class Conn:
         e["reply_stub_len"] = len(stub)
         return self.seal_response(m, stub, e)
 
-    def seal_response(self, m: dict, stub: bytes, e: t.Optional[dict] = None) -> bytes:
+    def seal_fragment(self, m: dict, piece: bytes, flags: int, e: t.Optional[dict] = None) -> bytes:
+        """One Response fragment carrying `piece`, sealed by this connection's security context (consumes a sequence number)."""
         cfg = self.dc.config
         if self.sec is None:
-            out = rpc.encode(dict(ptype=rpc.RESPONSE, flags=FL, call_id=m["call_id"], auth=None, alloc_hint=len(stub), ctx_id=m["ctx_id"], cancel_count=0, stub=stub))
-        else:
-            padn = -len(stub) % cfg.reply_align if cfg.reply_pad_exact is None else cfg.reply_pad_exact
-            body = stub + bytes([cfg.reply_pad_fill]) * padn
-            sig_size = self.sec.sig_size
-            frag = 24 + len(body) + 8 + sig_size
-            header = rpc.header(rpc.RESPONSE, FL, frag, sig_size, m["call_id"]) + struct.pack("<IHBB", len(body), m["ctx_id"], 0, 0)
-            trailer = struct.pack("<BBBBI", self.auth_type, self.auth_level, padn, 0, self.auth_ctx_id)
-            enc, sig = self.sec.wrap(header, body, trailer, self.sign_header)
-            if len(sig) != sig_size:
-                frag = 24 + len(body) + 8 + len(sig)
-                header = rpc.header(rpc.RESPONSE, FL, frag, len(sig), m["call_id"]) + struct.pack("<IHBB", len(body), m["ctx_id"], 0, 0)
-            out = header + enc + trailer + sig
-            if e is not None:
-                e["reply_pad"] = padn
+            return rpc.encode(dict(ptype=rpc.RESPONSE, flags=flags, call_id=m["call_id"], auth=None, alloc_hint=len(piece), ctx_id=m["ctx_id"], cancel_count=0, stub=piece))
+        padn = -len(piece) % cfg.reply_align if cfg.reply_pad_exact is None else cfg.reply_pad_exact
+        body = piece + bytes([cfg.reply_pad_fill]) * padn
+        sig_size = self.sec.sig_size
+        frag = 24 + len(body) + 8 + sig_size
+        header = rpc.header(rpc.RESPONSE, flags, frag, sig_size, m["call_id"]) + struct.pack("<IHBB", len(body), m["ctx_id"], 0, 0)
+        trailer = struct.pack("<BBBBI", self.auth_type, self.auth_level, padn, 0, self.auth_ctx_id)
+        enc, sig = self.sec.wrap(header, body, trailer, self.sign_header)
+        if len(sig) != sig_size:
+            frag = 24 + len(body) + 8 + len(sig)
+            header = rpc.header(rpc.RESPONSE, flags, frag, len(sig), m["call_id"]) + struct.pack("<IHBB", len(body), m["ctx_id"], 0, 0)
+        if e is not None:
+            e["reply_pad"] = padn
+        return header + enc + trailer + sig
+
+    def seal_response(self, m: dict, stub: bytes, e: t.Optional[dict] = None) -> bytes:
+        cfg = self.dc.config
+        cuts = [c for c in (cfg.reply_fragment_cuts or ()) if 0 < c < len(stub)]
+        if cuts:
+            # a server that fragments its reply (as it must when the client's max_recv_frag is small): every fragment is
+            # sealed on its own, FIRST on the first and LAST on the last one
+            pts = [0] + sorted(set(cuts)) + [len(stub)]
+            frags = []
+            for i in range(len(pts) - 1):
+                fl = (rpc.PFC_FIRST if i == 0 else 0) | (rpc.PFC_LAST if i == len(pts) - 2 else 0) | (FL & ~(rpc.PFC_FIRST | rpc.PFC_LAST))
+                frags.append(self.seal_fragment(m, stub[pts[i] : pts[i + 1]], fl, e))
+            out = b"".join(frags)
+            if cfg.tamper:
+                out = cfg.tamper(self, out, dict(stub=stub, request=m, fragments=frags, cuts=pts))
+            return out
+        out = self.seal_fragment(m, stub, FL, e)
         if cfg.tamper:
             out = cfg.tamper(self, out, dict(stub=stub, request=m))
         return out
